@@ -17,7 +17,8 @@ import orchestrate
 import tlc
 from tagfam import _run_jobs
 
-FAMILY_FILES = ["harness/batchfam.py", "harness/batchrun.py", "harness/vsg_traced.py", "harness/tagfam.py", "spec/Batch.tla", "spec/BatchTrace.tla", "spec/BatchTrace.cfg", "spec/MC_Batch.cfg",
+FAMILY_FILES = ["spec/Main.tla", "spec/MainTrace.tla", "spec/MainTrace.cfg", "spec/MC_Main.cfg", "spec/MC_Main_PerFile.cfg", "spec/MC_Main_thorough.cfg", "spec/Known_Main_StopRace.cfg",
+                "spec/Mutant_Main_Unordered.cfg", "spec/Mutant_Main_ExitLast.cfg", "harness/batchfam.py", "harness/batchrun.py", "harness/vsg_traced.py", "harness/tagfam.py", "spec/Batch.tla", "spec/BatchTrace.tla", "spec/BatchTrace.cfg", "spec/MC_Batch.cfg",
                 "spec/Mutant_Batch_Leak.cfg"]
 REJ = "entity e is\n  port (a : in std_logic;\nend entity e\n\narchitecture a of e is\nbegin\n  process begin end end end;\n"
 
@@ -45,10 +46,15 @@ def _collect(tier):
     rnd = random.Random(seed)
     wd = orchestrate.workdir("batchfam_" + tier)
     design = []
-    for cfg, expect in (("MC_Batch.cfg", None), ("Mutant_Batch_Leak.cfg", "C15_LeakConstant")):
-        res = tlc.model_check("Batch", cfg, workers=8, timeout=600)
+    models = [("Batch", "MC_Batch.cfg", None), ("Batch", "Mutant_Batch_Leak.cfg", "C15_LeakConstant"),
+              # the command line as a whole: parent, workers, stop flag, exit status, artefacts, disk
+              ("Main", "MC_Main.cfg" if q else "MC_Main_thorough.cfg", None), ("Main", "MC_Main_PerFile.cfg", None),
+              ("Main", "Known_Main_StopRace.cfg", "C15_DiskAsSerial"),     # design-level statement of a known finding
+              ("Main", "Mutant_Main_Unordered.cfg", "C15_OutputOrder"), ("Main", "Mutant_Main_ExitLast.cfg", "C14_ExitIsOr")]
+    for module, cfg, expect in models:
+        res = tlc.model_check(module, cfg, workers=8, timeout=1200)
         ok = res.ok if expect is None else ("Invariant %s is violated" % expect) in res.out
-        design.append({"module": "Batch", "cfg": cfg, "ok": ok, "states": res.states, "distinct": res.distinct, "expect": expect or "no error", "error": res.error[:300]})
+        design.append({"module": module, "cfg": cfg, "ok": ok, "states": res.states, "distinct": res.distinct, "expect": expect or "no error", "error": res.error[:300]})
     paths = [p for p in corpus.all_vhd() if p.endswith("_test_input.vhd") or "/styles/code_examples/" in p]
     small = [p for p in paths if os.path.getsize(p) < 6000]
     sample = corpus.stratified_sample(small, 10 if q else 40, seed, always=("/styles/code_examples/comments.vhd", "/styles/code_examples/grp_debouncer.vhd"))
@@ -93,6 +99,22 @@ def _collect(tier):
         scen.append({"k": k, "files": [nm], "p": 1, "fix": False, "stdin": True})
     k += 1
     scen.append({"k": k, "files": [rnd.choice([n for n in names if n != "rejected.vhd" and not n.startswith("sticky_")])], "p": 1, "fix": True, "stdin": True})
+    # a configuration error that hits ONE file (a file_list section naming a rule that does not exist) stops the run: the
+    # slow file carries it, cheap files follow it, so that pool workers have time to get to them (spec/Main.tla, StopRace)
+    big = [p for p in corpus.all_vhd() if "/styles/code_examples/" in p and os.path.getsize(p) > 30000][:1]
+    if big:
+        with open(big[0]) as f:
+            pool["slow_big.vhd"] = f.read() * 4
+        ordinary = [n for n in names if n != "rejected.vhd" and not n.startswith("sticky_")]
+        for j in range(2 if q else 8):
+            fs = rnd.sample(ordinary, 3)
+            for p in (1, 3):
+                k += 1
+                scen.append({"k": k, "files": [fs[0], "slow_big.vhd", fs[1], fs[2]], "p": p, "fix": True, "bad": ["slow_big.vhd"]})
+        k += 1
+        scen.append({"k": k, "files": rnd.sample(ordinary, 3) + ["rejected.vhd"], "p": 2, "fix": True, "bad": []})
+        k += 1
+        scen.append({"k": k, "files": ["rejected.vhd"] + rnd.sample(ordinary, 2), "p": 3, "fix": False, "bad": ["rejected.vhd"]})
     nsh = 16
     jobs = []
     for j in range(nsh):
@@ -105,6 +127,7 @@ def _collect(tier):
     findings = []
     stats = {"invocations": 0, "tasks": 0, "multi_process": 0, "tlc_states": 0, "tlc_errors": [], "by_p": {}, "fix": 0, "stdin": 0}
     samples = []
+    main_samples = []
     for path, res in results:
         D = json.load(open(path))
         recs = dict((r["id"], r) for r in D["recs"])
@@ -127,9 +150,65 @@ def _collect(tier):
             findings.append({"property": clause.split("_")[0], "clause": clause, "rule": "", "input": "stdin" if r["stdin"] else (t.get("file") or ",".join(r["files"])),
                              "config": "p=%d fix=%s%s" % (r["p"], r["fix"], " stdin" if r["stdin"] else ""),
                              "detail": {"files": r["files"], "task": t, "printed": r["printed"], "exit": r["exit"], "stderr_tail": r["stderr_tail"]}})
+    # the same invocations as behaviours of spec/Main.tla (per-process event sequences; TLC finds the interleaving)
+    mouts = [o + ".main" for o in outs if os.path.exists(o + ".main")]
+    mres = tlc.validate_shards(mouts, module="MainTrace", parallel=16)
+    stats["main_records"] = 0
+    stats["main_states"] = 0
+    stats["main_multi_process"] = 0
+    stats["main_events"] = 0
+    for path, res in mres:
+        D = json.load(open(path))
+        recs = dict((r["id"], r) for r in D["recs"])
+        stats["main_states"] += res.states
+        stats["tlc_states"] += res.states
+        if not res.ok:
+            stats["tlc_errors"].append({"shard": os.path.basename(path), "error": res.error[:400], "states": res.states, "recs": len(recs)})
+        seen = set()
+        for rid, r in recs.items():
+            stats["main_records"] += 1
+            stats["main_multi_process"] += 1 if len(r["procs"]) > 1 else 0
+            stats["main_events"] += sum(len(p) for p in r["procs"]) + len(r["out"]) + len(r["err"])
+            if rid not in res.done and not any(v[0] == rid and v[2] == "C15_NoScheduleExplains" for v in res.verdicts):
+                stats["tlc_errors"].append({"shard": os.path.basename(path), "error": "record %d neither accepted nor rejected" % rid})
+            if len(main_samples) < 2 and len(r["procs"]) > 1:
+                main_samples.append({"files": r["names"], "abstract": r["files"], "jobs": r["jobs"], "fix": r["fix"], "per_process_events": r["procs"], "stdout_order": r["out"], "stderr_order": r["err"],
+                                     "exit": r["exit"], "disk": r["disk"]})
+        for rid, kk, clause in res.verdicts:
+            if (rid, kk, clause) in seen:
+                continue  # the same clause fails on every interleaving TLC tries
+            seen.add((rid, kk, clause))
+            r = recs[rid]
+            dev = ""
+            if clause == "C15_DiskAsSerial":
+                # which files deviate from the one-job run, and how (identifies the known stop race, and only it)
+                stop = next((i for i, a in enumerate(r["files"]) if a["cls"] == "cfgerr"), len(r["files"]))
+                serial = ["fixed" if (i <= stop and a["cls"] == "ok" and a["dirty"] and r["fix"]) else "orig" for i, a in enumerate(r["files"])]
+                devs = [(i, d) for i, (d, s0) in enumerate(zip(r["disk"], serial)) if d != s0]
+                if devs and all(i > stop and d == "fixed" for i, d in devs) and r["jobs"] > 1:
+                    dev = " dev=fixed-after-stop"
+                else:
+                    dev = " dev=" + ",".join("%d:%s" % (i + 1, d) for i, d in devs)
+            findings.append({"property": clause.split("_")[0], "clause": clause, "rule": "", "input": ",".join(r["names"]),
+                             "config": "p=%d fix=%s%s" % (r["jobs"], r["fix"], " percfg:" + ",".join(r["bad"]) if r.get("percfg") else "") + dev,
+                             "detail": {"files": r["names"], "abstract": r["files"], "task": kk, "procs": r["procs"], "out": r["out"], "err": r["err"], "exit": r["exit"], "junit": r["junit"], "json": r["json"],
+                                        "disk": r["disk"], "stderr_tail": r["stderr_tail"]}})
+    samples += main_samples
     stats["wall"] = {"drivers": round(t1 - t0, 1), "tlc": round(time.time() - t1, 1)}
     shutil.rmtree(wd, ignore_errors=True)
     return {"findings": findings, "stats": stats, "design": design, "samples": samples}
+
+
+def extra_findings(prop, tier):
+    """findings of the command-line model (spec/Main.tla) that belong to another family's property (C14 exit status and
+    artefacts, C16 rejected file untouched, C04 no write without --fix); machinery problems stop the caller"""
+    r = collect(tier)
+    st = r["stats"]
+    bad = [d for d in r["design"] if not d["ok"]]
+    if st["tlc_errors"] or bad:
+        common.machinery("batch family: tlc=%s design=%s" % (st["tlc_errors"][:2], bad[:2]))
+    return [f for f in r["findings"] if f["property"] == prop], {"main_records": st.get("main_records"), "main_states": st.get("main_states"),
+                                                                  "design": [d for d in r["design"] if d["module"] == "Main"]}
 
 
 def check(prop, tier):
@@ -153,6 +232,8 @@ def check(prop, tier):
         "rule": "one command-line invocation per (file list, order, job count, --fix) over a seeded pool of small fixtures plus a rejected file; non-trivial = more than one worker process took tasks, or --stdin",
         "design_models": r["design"],
         "apply_rules_calls_recorded": st["tasks"],
+        "main_trace": {"records": st.get("main_records"), "multi_process": st.get("main_multi_process"), "events": st.get("main_events"), "states": st.get("main_states"),
+                       "note": "spec/MainTrace.tla: per-process B/E events + stdout / stderr order; TLC searches the interleaving that is a behaviour of spec/Main.tla"},
         "invocations_by_jobs": st["by_p"],
         "with_fix": st["fix"],
         "from_cache": r.get("cached", False),
